@@ -24,6 +24,7 @@ ASSUMPTIONS = ['vf.ref_xslt (self-test 339 checks; differential vs libxslt: 1000
                'libxslt is only a veto against reference bugs, never the oracle']
 
 OPEN = set()
+ALL_OPEN = set()
 FLAGS = set()
 _loaded = []
 
@@ -36,6 +37,10 @@ def load_flags(ctx):
         OPEN.add(e['id'])
         for f in e.get('exclusion_flags', []):
             FLAGS.add(f)
+    for e in ctx.findings.entries:
+        if e['status'] == 'open':
+            ALL_OPEN.add(e['id'])
+    T.SAME_PRIORITY_UNIONS[0] = 'F-C10-union-alt-priority' in ALL_OPEN
 
 
 def budget(tier):
@@ -88,35 +93,48 @@ def count_nodes(ev):
 
 
 def static_exclusions(case):
-    """triggers of findings that belong to OTHER properties (C09/C10/C14/C15/C17), recognised on the stylesheet text"""
+    """triggers of OPEN findings that belong to OTHER properties (C09/C10/C14/C15/C17), recognised on the stylesheet text.  Only findings
+    that are open are excluded; each exclusion is counted in the evidence."""
     import re
     from .. import ref_xpath
     hits = []
     text = ''.join(t for n, t in case['files'].items() if n.endswith('.xsl'))
-    for m in re.finditer(r'match="([^"]*)"', text):
-        pat = m.group(1).replace('&lt;', '<').replace('&gt;', '>').replace('&amp;', '&')
-        if '|' in pat:
+    for m in re.finditer(r'<xsl:template\b([^>]*)>', text):
+        attrs = m.group(1)
+        mm = re.search(r'\bmatch="([^"]*)"', attrs)
+        if not mm:
+            continue
+        pat = mm.group(1).replace('&lt;', '<').replace('&gt;', '>').replace('&amp;', '&')
+        if '|' in pat and not re.search(r'\bpriority=', attrs):
             try:
                 alts = ref_xpath.pattern_alternatives(ref_xpath.parse_pattern(pat))
                 if len({p for _, p in alts}) > 1:
                     hits.append('F-C10-union-alt-priority')
             except Exception:
                 pass
+    for m in re.finditer(r'\b(?:match|count|from)="([^"]*)"', text):
+        pat = m.group(1).replace('&lt;', '<').replace('&gt;', '>').replace('&amp;', '&')
         if re.search(r'(@|attribute::)[^/|]*\[', pat):
             hits.append('F-C09-attr-positional')
         if re.search(r'(@|attribute::)\s*(node|text|comment|processing-instruction)\(', pat):
             hits.append('F-C09-attr-step-type-test')
-        if '//' in pat.lstrip('/') :
-            hits.append('F-C09-dslash')
-    if re.search(r'<xsl:(attribute|element)\b[^>]*\bnamespace=', text):
-        hits.append('F-C14-attribute-namespace-prefix')
+        from . import c09
+        shapes = c09.dslash_shapes(pat)
+        if 'abs-inner-dslash' in shapes:
+            hits.append('F-C09-abs-inner-dslash')
+        if 'multi-before-dslash' in shapes:
+            hits.append('F-C09-dslash-no-backtrack')
+        if 'node-before-dslash' in shapes:
+            hits.append('F-C09-root-as-ancestor-step')
     if 'namespace-alias' in text and re.search(r'<xsl:(attribute|element)\b', text):
         hits.append('F-C14-alias-by-prefix')
     if re.search(r'<xsl:key\b[^>]*use="[^"]*(position|last)\(', text):
         hits.append('F-C15-use-position')
     if re.search(r'<xsl:number\b[^>]*level="any"[^>]*from=|<xsl:number\b[^>]*from=[^>]*level="any"', text):
         hits.append('F-C17-any-from-ancestors')
-    return hits
+    if re.search(r'xml:space=', case['files']['doc.xml']) and 'strip-space' in text:
+        hits.append('F-C13-xml-space-ignored')
+    return [h for h in hits if h in ALL_OPEN]
 
 
 def transform_with_fallback(ctx, fields, **kw):
@@ -132,8 +150,14 @@ def transform_with_fallback(ctx, fields, **kw):
         return ctx.drv_flavor('ndebug').call('transform', fields, **kw)
 
 
+_seen_same = [0]
+
+
 def check(ctx, case):
     load_flags(ctx)
+    if T.SAME_PRIORITY_UNIONS[1] > _seen_same[0]:
+        ctx.excluded['F-C10-union-alt-priority(by construction: same-priority alternatives)'] += T.SAME_PRIORITY_UNIONS[1] - _seen_same[0]
+        _seen_same[0] = T.SAME_PRIORITY_UNIONS[1]
     if ctx.tier != 'replay':
         hits = static_exclusions(case)
         if hits:
@@ -210,3 +234,90 @@ def signature(case, detail):
     d = re.sub(r"/\d+", '/N', d)
     d = re.sub(r"'[^']*'|\"[^\"]*\"|\d+", '_', d)
     return '%s|%s' % (detail['what'], d[:80])
+
+
+# ------------------------------------------------------------------------------------------ reduction
+def reduce(ctx, failure, max_trials=600):
+    """structural delta debugging of a failing case (the generator is driven through st.randoms, whose byte-level shrinking leaves large
+    stylesheets): repeatedly delete one element or attribute of a stylesheet module / the document while the case still fails with the same
+    kind of signature and is still a case the check would judge (no exclusion, no reference error).  Deterministic."""
+    from xml.dom import minidom
+    case, detail, sig = failure
+    kind = sig.split('|')[0]
+    trials = [0]
+
+    def still(c):
+        trials[0] += 1
+        try:
+            d = check(ctx, c)
+        except Exception:
+            return None
+        if not d:
+            return None
+        s = signature(c, d)
+        if s.split('|')[0] != kind or ctx.findings.match(ID, s) is not None:
+            return None
+        return (c, d, s)
+
+    def candidates(dom):
+        out = []
+
+        def walk(n):
+            for ch in list(n.childNodes):
+                if ch.nodeType == ch.ELEMENT_NODE:
+                    out.append(('elem', ch))
+                    walk(ch)
+                elif ch.nodeType in (ch.COMMENT_NODE, ch.PROCESSING_INSTRUCTION_NODE):
+                    out.append(('elem', ch))
+        walk(dom)
+        for kind_, e in list(out):
+            if e.nodeType == e.ELEMENT_NODE and e.attributes is not None:
+                for i in range(e.attributes.length):
+                    a = e.attributes.item(i)
+                    if not a.name.startswith('xmlns') and a.name not in ('version',):
+                        out.append(('attr', (e, a.name)))
+        return out
+
+    best = (case, detail, sig)
+    changed = True
+    while changed and trials[0] < max_trials:
+        changed = False
+        for fname in sorted(best[0]['files'], key=lambda n: (not n.endswith('.xsl'), n)):
+            idx = 0
+            while trials[0] < max_trials:
+                text = best[0]['files'][fname]
+                try:
+                    dom = minidom.parseString(text.encode('utf-8'))
+                except Exception:
+                    break
+                cands = candidates(dom)
+                cands = [c for c in cands if not (c[0] == 'elem' and c[1] is dom.documentElement)]
+                if idx >= len(cands):
+                    break
+                k, what = cands[idx]
+                if k == 'elem':
+                    what.parentNode.removeChild(what)
+                else:
+                    what[0].removeAttribute(what[1])
+                new_text = dom.toxml()
+                if new_text.startswith('<?xml'):
+                    new_text = new_text[new_text.index('?>') + 2:]
+                files = dict(best[0]['files'])
+                files[fname] = new_text
+                r = still(dict(best[0], files=files))
+                if r is not None:
+                    best = r
+                    changed = True
+                else:
+                    idx += 1
+        # modules nobody refers to any more
+        used = ''.join(t for n, t in best[0]['files'].items())
+        for fname in list(best[0]['files']):
+            if fname not in ('main.xsl', 'doc.xml') and fname not in used:
+                files = dict(best[0]['files'])
+                del files[fname]
+                r = still(dict(best[0], files=files))
+                if r is not None:
+                    best = r
+    ctx.counters['reduce:trials'] += trials[0]
+    return best
